@@ -2,5 +2,6 @@
 \* stream's buffer when Ok is returned and is lost silently on a full device or a broken pipe -- must be refuted
 SPECIFICATION Spec
 CONSTANT FlushBeforeReturn = FALSE
+CONSTANT FormatErrorSurfaces = FALSE
 INVARIANTS UnwritableIsErr OkMeansDelivered
 CHECK_DEADLOCK FALSE
